@@ -46,6 +46,10 @@ SOFT = {'asciiset.has', 'asciiset.add', 'sourcemap.get_position', 'sourcemap.che
 # ("lost"), and the tie for that constant is the correspondence alone.  A shape that IS recognised with a DIFFERENT
 # value stays a hard break.
 SOFT |= {'asciiset.new', 'encode.DIGITS', 'main.normalize_link', 'main.max_nesting_default'}
+# Since the whole block parser is modelled (Model/Block.lean, stream `block` compares complete block parses and
+# single rule calls in both modes), WHO calls the look-ahead is established behaviourally: a sixth caller, or a
+# caller moved into a shared helper (refactoring R8-2), shows as a difference of the stream or not at all.
+SOFT |= {'lookahead.callers_are_the_five'}
 
 
 def anchor(name, props, pattern, text, flags=re.S):
